@@ -18,7 +18,7 @@ import tempfile
 
 from pyabv.gen.inputs import SPLITTER_VALUES, env_key
 from pyabv.gen.programs import Profile, ProgGen
-from pyabv.impl import impl
+from pyabv.impl import Failpoint, impl
 from pyabv.props.common import choose_inputs, selection, self_check
 from pyabv.ref.parse import returns_of
 from pyabv.run import HOME, PYTHON, REPO, jsonable
@@ -34,7 +34,7 @@ RULE = (
     "another state of the global random generator; the in-process history re-seeds `random` between calls). distinct_nontrivial = "
     "distinct pairs whose routed return has >= 2 positive-weight groups and that were observed by >= 2 instances and "
     ">= 2 processes."
-    ' Added later: twelve sibling revisions that weak change detectors confuse (round 9); case-twin splitters, padded and unencodable ids (same error every time), records with a declared field left out, keyword order shuffled per call, copies (copy / deepcopy) of evaluators taken in the middle of recompile cycles, a fake-world child whose clocks run 3600x fast.'
+    ' Added later: twelve sibling revisions that weak change detectors confuse, calls that fail through an injected fault (sys.monitoring failpoint inside the repository) followed by ordinary calls (round 9); case-twin splitters, padded and unencodable ids (same error every time), records with a declared field left out, keyword order shuffled per call, copies (copy / deepcopy) of evaluators taken in the middle of recompile cycles, a fake-world child whose clocks run 3600x fast.'
 )
 ASSUMPTIONS = [
     "only the C, C.UTF-8 and POSIX locales exist in this image; 'another interpreter' means another process of the same "
@@ -212,6 +212,7 @@ def run(ctx):
 
     # ---- layer 1: in-process history ----------------------------------------------------------------
     twin_round = [-1]
+    fault_round = [0]
     table = {}  # (text, env_key) -> canonical outcome
     seen_by = {}  # (text, env_key) -> set of instance ids
 
@@ -257,6 +258,8 @@ def run(ctx):
             extra.append(("new", None, None))
             extra.append(("other", None, rnd.randrange(len(other[2]))))
             extra.append(("twin", None, None))
+            extra.append(("faulted-call", rnd.randrange(len(insts)), rnd.randrange(len(envs))))
+            extra.append(("faulted-call", rnd.randrange(len(insts)), rnd.randrange(len(envs))))
         for e in extra:
             ops.insert(rnd.randrange(len(ops) + 1), e)
         away = set()
@@ -293,6 +296,24 @@ def run(ctx):
                         away.add(i)
                 except Exception:  # noqa: BLE001
                     ctx.count("recompile-raised (C11's business)")
+            elif op == "faulted-call":
+                # a call that fails for a reason of its own (a fault injected at the k-th function start inside the repository,
+                # probe P9) must not change what any later call returns
+                ev, text, sid = insts[i]
+                if text != gp.text:
+                    continue
+                env = envs[j]
+                with Failpoint(1 + fault_round[0] % 4) as fp:
+                    out = im.call(ev, env)
+                fault_round[0] += 1
+                ctx.count("in-process/faulted-calls/" + ("fault-raised" if fp.fired_in else "fault-point-not-reached"))
+                if fp.fired_in:
+                    ctx.seen("call_failpoints", fp.fired_in)
+                elif not record(text, env, out, sid, "call-under-inert-failpoint"):
+                    return
+                for e2 in (env, envs[(j + 1) % len(envs)]):
+                    if not record(text, e2, im.call(ev, e2), sid, "after-faulted-call"):
+                        return
             elif op == "new":
                 n = new_eval(gp.text)
                 if n:
